@@ -70,6 +70,8 @@ def norm(v):
 def kahan_angle(a, b):
     """Angle between vectors a and b (lists of mpf), 2*atan2(|a^-b^|, |a^+b^|)."""
     na, nb = norm(a), norm(b)
+    if na == 0 or nb == 0:
+        return mp.nan      # no angle with a zero-length vector (callers treat such cases as out of domain)
     a = [x / na for x in a]
     b = [x / nb for x in b]
     y = norm([p - q for p, q in zip(a, b, strict=True)])
